@@ -247,7 +247,9 @@ def generate(job):
     if nf:
         # resolve fault positions with a dry run of the same schedule on a fresh model
         counts = execute(spec, dry=True)["op_events"]
-        cand = [i for i, c in enumerate(counts) if c > 0]
+        # faults go into blocks and computations only: a permanent change interrupted half-way is not
+        # something the property speaks about
+        cand = [i for i, c in enumerate(counts) if c > 0 and spec["ops"][i]["k"] not in PERM]
         for _ in range(nf):
             if not cand:
                 break
@@ -471,8 +473,8 @@ class Session:
         k = op["k"]
         log = self.log
         if k in PERM:
-            self.do_perm(op)
             self.last_S = None
+            self.do_perm(op)
             log.ev("perm", k=k, path=path)
             log.count("op." + k)
             self.changing_ops += 1
